@@ -1,0 +1,25 @@
+//go:build verif
+
+package evaluate
+
+// Contracts checked by /verif (vcgo). Comment-only: no executable code.
+// C18: the evaluation summary's numbers of classes, methods and static methods equal the values in the model.
+
+//@ spec rec StaticIn(fs []core_domain.CodeFunction, n int) int := n <= 0 ? 0 : StaticIn(fs, n - 1) + (HasStatic(fs[n - 1]) ? 1 : 0)
+
+//@ spec rec MethTot(ds []core_domain.CodeDataStruct, n int) int := n <= 0 ? 0 : MethTot(ds, n - 1) + len(ds[n - 1].Functions)
+
+//@ spec rec StaticTot(ds []core_domain.CodeDataStruct, n int) int := n <= 0 ? 0 : StaticTot(ds, n - 1) + StaticIn(ds[n - 1].Functions, len(ds[n - 1].Functions))
+
+//@ func SummaryMethodIdentifier
+//@ requires result != nil
+//@ modifies *result
+//@ ensures (*result).Summary.ClassCount == old((*result).Summary.ClassCount) + len(identifiers)
+//@ ensures (*result).Summary.MethodCount == old((*result).Summary.MethodCount) + MethTot(identifiers, len(identifiers))
+//@ ensures (*result).Summary.StaticMethodCount == old((*result).Summary.StaticMethodCount) + StaticTot(identifiers, len(identifiers))
+//@ loop 1 invariant (*result).Summary.ClassCount == old((*result).Summary.ClassCount) + #i
+//@ loop 1 invariant (*result).Summary.MethodCount == old((*result).Summary.MethodCount) + MethTot(identifiers, #i)
+//@ loop 1 invariant (*result).Summary.StaticMethodCount == old((*result).Summary.StaticMethodCount) + StaticTot(identifiers, #i)
+//@ loop 2 invariant (*result).Summary.ClassCount == old((*result).Summary.ClassCount) + #i1 + 1
+//@ loop 2 invariant (*result).Summary.MethodCount == old((*result).Summary.MethodCount) + MethTot(identifiers, #i1) + #i
+//@ loop 2 invariant (*result).Summary.StaticMethodCount == old((*result).Summary.StaticMethodCount) + StaticTot(identifiers, #i1) + StaticIn(ident.Functions, #i)
